@@ -398,7 +398,7 @@ class Gen:
         if k < 0.93:
             self.features.add('cte')
             shapes = ['plain', 'plain', 'body-union', 'main-union', 'used-twice', 'joined', 'two-ctes', 'in-subquery']
-            if self.qual('t1') == 't1':
+            if self.qual('t1') == 't1' or getattr(self, 'nested_with', False):
                 # a WITH clause of a nested query (derived table, IN / EXISTS operand, body of another CTE); its name may be the name of
                 # a table that the enclosing query reads: it is local to the nested query
                 shapes += ['nested-derived', 'nested-in', 'nested-exists', 'nested-cte-body']
@@ -413,9 +413,11 @@ class Gen:
             op = r.choice(['UNION', 'UNION ALL', 'EXCEPT', 'INTERSECT'])
             if shape.startswith('nested-'):
                 other = 't2' if t1 == 't1' else 't1'
-                n = r.choice([other, other, 'cte9'])
+                # (with qualified tables the nested name never equals a table reference: a plain local name)
+                n = r.choice([other, other, 'cte9']) if self.qual('t1') == 't1' else 'cte9'
                 if n != 'cte9':
                     self.features.add('cte:nested-name-shadows-outer-table')
+                other = self.qual(other)
                 bq = f'SELECT q.id AS id, q.a AS a FROM {other} AS q'
                 inner = f'WITH {n} AS ({a}) SELECT c.id AS id, c.a AS a FROM {n} AS c'
                 if shape == 'nested-derived':
